@@ -1,7 +1,7 @@
 (* C14 correspondence: one harness line -> verdict ("ok", (bad <expected>) or hyp-violated).
    Line forms (harness/c14/main.go):
      (length S I) (slice S i j I) (at S i I) (indices S X I) (index S X I) (rindex S X I)
-     (match RE FLAGS S NAMES XS I)
+     (match RE FLAGS S NAMES XS I) (splits RE FLAGS S XS I) (gsubid RE FLAGS S XS I)
    S, X, RE, FLAGS strings; i, j integers or null; NAMES = regexp.SubexpNames() as an array of strings;
    XS = regexp.FindAllStringSubmatchIndex(S, n) as an array of arrays of integers, obtained by the harness
    from Go's regexp with gojq's flag translation; I = what the implementation returned. *)
@@ -62,13 +62,31 @@ Definition run_match (args : list jv) (impl : sexp) : sexp :=
   | [_; _; JStr s; JArr names; JArr xs] =>
       match strs_of names, zss_of xs with
       | Some names, Some xs =>
-          if forallb (alignedb s) xs then
+          if forallb (alignedb s) xs && orderedb s xs then
             match all_some (func_match s xs) with
             | Some ms => agree (ROk (JArr (map (match_jv names) ms))) impl
             | None => A "hyp-violated"
             end
           else A "hyp-violated"
       | _, _ => A "undecodable"
+      end
+  | _ => A "undecodable"
+  end.
+
+(* [splits(re; flags)] and gsub("(?<zz>" + re + ")"; .zz; flags) through the hand transcriptions of
+   builtin.jq, fed with the whole-match index pairs (XS is the global result for splits) *)
+Definition run_reduction (is_splits : bool) (args : list jv) (impl : sexp) : sexp :=
+  match args with
+  | [_; _; JStr s; JArr xs] =>
+      match zss_of xs with
+      | Some xs =>
+          if forallb (alignedb s) xs && orderedb s xs then
+            let rep := reported s xs in
+            if is_splits then
+              agree (ROk (JArr (map JStr (splits s (map (fun t => (fst (fst t), snd (fst t))) rep))))) impl
+            else agree (ROk (JStr (sub_with s rep))) impl
+          else A "hyp-violated"
+      | None => A "undecodable"
       end
   | _ => A "undecodable"
   end.
@@ -81,6 +99,8 @@ Definition run_sexp14 (e : sexp) : sexp :=
           match dec_all (rev rargs) with
           | Some args =>
               if atom_is "match" k then run_match args impl
+              else if atom_is "splits" k then run_reduction true args impl
+              else if atom_is "gsubid" k then run_reduction false args impl
               else match run14 k args with
                    | Some r => agree r impl
                    | None => A "undecodable"
